@@ -1,7 +1,8 @@
 (* C17 -- property theorems only: statement + exact + Print Assumptions. *)
 From Coq Require Import List ZArith Bool.
 From LJT Require Import model.Huff gen.GenParams model.CParams proofs.CParamsHoare proofs.CParamsTj
-  proofs.CParamsScript proofs.CParamsChain proofs.CParamsSetup proofs.CParamsBlock proofs.CParamsExamples.
+  proofs.CParamsScript proofs.CParamsChain proofs.CParamsSetup proofs.CParamsBlock proofs.CParamsMaster
+  proofs.CParamsPasses proofs.CParamsExamples lib.Sweep.
 Import ListNotations.
 Local Open Scope Z_scope.
 
@@ -91,6 +92,45 @@ Theorem C17_tj_param_ranges : forall init param value,
   match consumer_range param with Some (a, b) => a <= value <= b | None => False end.
 Proof. exact tj_param_ranges_lemma. Qed.
 Print Assumptions C17_tj_param_ranges.
+
+(* (1c) the whole start sequence (validate_script, lossless re-validation, initial_setup, conversion /
+   down-sampling checks, select_scan_parameters + per_scan_setup of the first scan), for EVERY
+   configuration: every recorded array access in range; success => no scan refers to a component beyond
+   the final num_components, geometry and first scan well formed *)
+Theorem C17_master_start_safe : forall c, sat (master_start c) (started_wf c).
+Proof. exact master_start_safe_lemma. Qed.
+Print Assumptions C17_master_start_safe.
+
+(* (1d) ... and the per_scan_setup of every later scan *)
+Theorem C17_master_rest_safe : forall c t, started_wf c t -> sat (master_rest c t) (fun _ => True).
+Proof. exact master_rest_safe_lemma. Qed.
+Print Assumptions C17_master_rest_safe.
+
+(* quantisation: jpeg_add_quant_table clamps every entry to 1..32767 (1..255 baseline); the divisor handed to
+   compute_reciprocal in 8-bit mode is min(8q, 65535): never 0, fits UINT16 (F3) *)
+Theorem C17_quant_entry_range : forall basic scale force,
+  1 <= quant_entry basic scale force <= (if force then 255 else 32767).
+Proof. exact quant_entry_range_lemma. Qed.
+Print Assumptions C17_quant_entry_range.
+Theorem C17_quant_divisor_total : forall q, 1 <= q <= 65535 ->
+  1 <= islow_divisor q <= 65535 /\ islow_divisor q = Z.min (8 * q) 65535.
+Proof. exact quant_divisor_total_lemma. Qed.
+Print Assumptions C17_quant_divisor_total.
+
+(* (6) stream completeness, as far as the model carries it: the pass loop of the master terminates for every
+   scan count / optimisation setting / set of DC refinement scans, writes SOI first, every scan's data exactly
+   once in script order directly after its scan header, and EOI last.  The byte-level statement is kept
+   visible; it is checked on the implementation by the oracle (ends with FFD9, own decoder accepts). *)
+Definition stream_complete_full : Prop :=
+  forall (compress : cfg -> option (list Z)) (c : cfg) (bytes : list Z),
+    compress c = Some bytes ->
+    exists body, bytes = [255; 216] ++ body ++ [255; 217].
+Theorem C17_stream_complete_partial : forall n optimize dcr, 1 <= n ->
+  exists ev, run_master n optimize dcr = Some ev /\
+             hd EvEOI ev = EvSOI /\ last ev EvSOI = EvEOI /\
+             scan_data ev = zrange 0 (Z.to_nat n) /\ headed None ev.
+Proof. exact stream_complete_partial_lemma. Qed.
+Print Assumptions C17_stream_complete_partial.
 
 (* ---- non-vacuity ---- *)
 Example C17_ex_std_progression_accepted :
